@@ -241,7 +241,7 @@ def run_case(part, t, bind, w, seed, ea, fam, cells=None, cellbind=None, extra='
     r = judge(t, bind, w, seed, ea, cells, cellbind)
     key = core.h64((fam, repr(t), repr(sorted(bind.items())), extra))
     if r is None:
-        part.ok(key)
+        part.ok(key, sample={'tree': irsem.show(t), 'state': {irsem.show(k_): irsem.show(v_) for k_, v_ in bind.items()}} if len(part.samples) < 3 else None)
         return
     if r[0] == 'skip':
         part.skip(r[1])
@@ -329,7 +329,6 @@ def run(tier, seed):
     t0 = time.time()
     irsem.selfcheck()
     part = core.run_sharded(shard, (tier, seed), nshards=core.NPROC * 4)
-    part.samples.append({'tree': '(a:8 ^ b:8 ^ 0x3:8)', 'state': {'a': '0x1:8', 'b': '(q:8 + 0x1:8)'}})
     rule = ('case = (expression tree, binding pattern); families: E1 / lifter operators / near-equal twins with every combination of '
             '{absent, 5 boundary constants, 2 symbolic expressions} per identifier; rule-targeted and E2 families with every pair of '
             'boundary constants (all-constant evaluation must fold to the ExprInt the operators define); memory family: same-address cell of '
